@@ -4105,11 +4105,22 @@ pub fn function_call(
             check_clock_domain(c, &comptime, x, &token.beg);
             comptime.clock_domain = comptime.clock_domain.merge(&x.clock_domain);
         }
-        for dsts in outputs.values() {
+        for (path, dsts) in &outputs {
+            // What the body assigned to this output argument (a signal of
+            // the enclosing module, say) crosses to the destination too.
+            let member = func
+                .args
+                .iter()
+                .flat_map(|x| x.members.iter())
+                .find(|(x, _, _)| x == path)
+                .map(|(_, x, _)| x.clone());
             for dst in dsts {
                 let mut dst_comptime = dst.comptime.clone();
                 dst_comptime.token = dst.token;
                 check_clock_domain(c, &dst_comptime, &comptime, &token.beg);
+                if let Some(member) = &member {
+                    check_clock_domain(c, &dst_comptime, member, &token.beg);
+                }
             }
         }
 
